@@ -299,3 +299,25 @@ Definition derive_field (parent : str) (sh : goshape) (tag : str) : ufield :=
   let u := unmarshal (elem_kind sh) tag in
   {| u_name := parent ++ dot :: basename (u_name u); u_number := u_number u; u_card := u_card u;
      u_kind := u_kind u; u_json := u_json u; u_packed := u_packed u; u_proto3 := u_proto3 u; u_def := u_def u |}.
+
+(* strings.Split(tag, ",") *)
+Fixpoint split_commas_aux (s cur : str) : list str :=
+  match s with
+  | [] => [rev cur]
+  | b :: r => if beqb b comma then rev cur :: split_commas_aux r [] else split_commas_aux r (b :: cur)
+  end.
+Definition split_commas (s : str) : list str := split_commas_aux s [].
+
+(* aberrantLoadMessageDesc decides the syntax of the whole message: proto3 as soon as a tagged
+   struct field has a plain scalar Go type (bool, the integers, the floats, string) or a tag
+   with a "proto3" piece (a plain split at commas: the text of a default value counts too) *)
+Definition is_scalar_gokind (gk : gokind) : bool :=
+  match gk with GBytes | GOther => false | _ => true end.
+Definition derive_msg_proto3 (sh : goshape) (tag : str) : bool :=
+  (match sh with ShPlain gk => is_scalar_gokind gk | _ => false end)
+  || existsb (fun s => str_eqb s s_proto3) (split_commas tag).
+
+(* Field.HasPresence of the derived field: the features come from the tag (proto2 surrogate
+   unless the tag says proto3); message-typed fields always have presence *)
+Definition u_has_presence (u : ufield) : bool :=
+  if u_card u =? 3 then false else negb (u_proto3 u) || (u_kind u =? 10) || (u_kind u =? 11).
